@@ -37,7 +37,14 @@ func repoDir() string {
 // layer objects that decoding the seeds produces.
 func getCorpus() *corpus.Corpus {
 	corpOnce.Do(func() {
+		if path := os.Getenv("VERIF_LASTINPUT"); path != "" {
+			corpus.LastInput, _ = os.OpenFile(path, os.O_CREATE|os.O_WRONLY, 0o644)
+		}
 		corp = corpus.Build(repoDir())
+		if corpus.LastInput != nil {
+			corpus.LastInput.Close()
+			corpus.LastInput = nil
+		}
 		dlTypes = map[gopacket.LayerType]reflect.Type{}
 		dlIface := reflect.TypeOf((*gopacket.DecodingLayer)(nil)).Elem()
 		seen := func(l gopacket.Layer) {
